@@ -27,15 +27,17 @@ pub fn read_files_in_folder(
 /// Whether iso literals are read from this file. This must be the same for the
 /// initial scan of the project root and for files reported by the file watcher.
 pub(crate) fn is_iso_literal_source_file(path: &Path) -> bool {
+    // Paths of source files are interned as strings. A file whose path is not valid
+    // UTF-8 cannot be named in a diagnostic or in an artifact, so it is not a source file.
+    let Some(path_str) = path.to_str() else {
+        return false;
+    };
     let extension = path.extension().and_then(|x| x.to_str());
 
     matches!(
         extension,
         Some("ts") | Some("tsx") | Some("js") | Some("jsx")
-    ) && !path
-        .to_str()
-        .expect("Expected path to be stringable")
-        .contains("__isograph")
+    ) && !path_str.contains("__isograph")
 }
 
 pub fn read_file(
